@@ -76,6 +76,7 @@ def run(ctx):
                          "tables x flavours; non-trivial = an engine write happened / an entry was chosen")
     ctx.assume("virtual clock replaces time.time/sleep inside the engine modules", "MockProvider flavours are the environment")
     run_sched(ctx)
+    sc.run_exemplars(ctx, CLAUSES, extra_sig=xsig)
     quick = ctx.tier == "quick"
     flavors = ["oid/oid", "path/oidf"] if quick else ["oid/oid", "path/oidf", "oidf/path", "path/path"]
     fams = [("age_one", [1], 2, 400 if quick else None), ("age_two", [1, 2], 2, 500 if quick else 6000)]
